@@ -21,7 +21,7 @@ def correspondence(ctx):
 
     def load_and_run():
         _spec.loader.exec_module(mod)
-        return mod.cases(seed, 24 if quick else 300)
+        return mod.directed_cases() + mod.cases(seed, 24 if quick else 300)   # the corpus of minimised histories runs first
     quick = ctx.tier == 'quick'
     seed = ctx.rng.randrange(1, 10 ** 5)
     cs = common.safe_cases(ctx, NAME, load_and_run)
